@@ -24,7 +24,7 @@ MODIFIERS = {'pub', 'const', 'async', 'unsafe', 'extern', 'default'}
 
 # attribute macros that cannot exist in a single-file build: dropped (rule 'drop-attr')
 DROP_ATTR_RE = re.compile(r'^#\s*\[\s*(error|from|source|backtrace|must_use|doc|inline|cfg_attr|deprecated|allow|expect|warn)\b')
-DROP_DERIVES = {'Error', 'Display', 'From', 'Into', 'EnumSetType', 'Enum', 'EnumIter', 'EnumString', 'IntoStaticStr', 'Default'}
+DROP_DERIVES = {'Error', 'Display', 'From', 'Into', 'EnumSetType', 'Enum', 'EnumIter', 'EnumString', 'IntoStaticStr'}
 
 
 class Source:
@@ -296,6 +296,10 @@ class FnSplicer:
             self.segs.insert(pos, '\n    opens_invariants ' + spec['opens_invariants'] + '\n', tag + '/kw', order=order)
         if not has_body:
             return
+        if 'strip-async' in (spec.get('rewrites') or []):
+            self._strip_async(start, kwi, body_open, body_close)
+        for pname in (spec.get('mut_params') or []):
+            self._param_shared_to_mut(kwi, pclose, pname)
         if 'match-guard-to-if' in (spec.get('rewrites') or []):
             self._match_guard_to_if(body_open, body_close)
         if 'let-chain-last' in (spec.get('rewrites') or []):
@@ -415,6 +419,41 @@ class FnSplicer:
         for k in cspecs:
             if int(k) >= len(closures):
                 raise ExtractError('lost anchor: closure #%s of %s (found %d closures)' % (k, tag, len(closures)))
+
+    def _strip_async(self, start, kwi, body_open, body_close):
+        """Rule 'strip-async': drop the `async` modifier and every `.await` of the body.  Verus has no
+        async; what is dropped is the possibility of other tasks running at the await points (the awaited
+        futures are taken to complete immediately)."""
+        toks = self.src.toks
+        for i in range(start, kwi):
+            if toks[i].kind == 'ident' and toks[i].text == 'async':
+                self.segs.rewrite(toks[i].start, toks[i].end, '', 'strip-async')
+                self.counts['strip-async'] = self.counts.get('strip-async', 0) + 1
+        i = body_open + 1
+        while i < body_close:
+            if toks[i].text == '.' and toks[i + 1].kind == 'ident' and toks[i + 1].text == 'await':
+                self.segs.rewrite(toks[i].start, toks[i + 1].end, '', 'strip-await')
+                self.counts['strip-await'] = self.counts.get('strip-await', 0) + 1
+                i += 1
+            i += 1
+
+    def _param_shared_to_mut(self, kwi, pclose, pname):
+        """Rule 'param-shared-to-mut': `NAME: &T` -> `NAME: &mut T` for a named parameter, so that the
+        effect of the callee on the system can be specified (Verus has no interior mutability)."""
+        toks = self.src.toks
+        i = kwi
+        while i < pclose:
+            if toks[i].kind == 'ident' and toks[i].text == pname and toks[i + 1].text == ':' and toks[i + 2].text == '&':
+                j = i + 3
+                if toks[j].kind == 'lifetime':
+                    j += 1
+                if toks[j].text == 'mut':
+                    return
+                self.segs.insert(toks[j].start, 'mut ', 'param-shared-to-mut', order=3)
+                self.counts['param-shared-to-mut'] = self.counts.get('param-shared-to-mut', 0) + 1
+                return
+            i += 1
+        raise ExtractError('param-shared-to-mut: parameter `%s` not found' % pname)
 
     def _match_guard_to_if(self, body_open, body_close):
         """Rule 'match-guard-to-if' (works around a Verus defect: a match arm with an `if` guard loses
